@@ -415,9 +415,27 @@ def inst_cum(cls, blocks, axis):
                     unit=f"{cls}._layer", api_replay=api, cost=blocks[axis])
 
 
+def _program_body(E, w, prog):
+    """the public functions end to end (view alone / under sum): rewritten and materialized by the repository's pipeline,
+    executed on symbolic blocks, compared with the NumPy definition at a skolem output position"""
+    from . import catalog
+
+    m = catalog.stages(E, w, prog.node, {"materialized"})["materialized"]
+    whole, dsk, r = catalog.run_tree(E, m, prog.node.chunks, "materialized")
+    same_array(E, whole, prog.ref, label="window-values", skolem="pm")
+    same_array(E, catalog.computed(E, w, m), prog.ref, label="computed-values", skolem="pc")
+
+
+def _program_instances(tier):
+    from . import catalog
+
+    return catalog.make_instances(tier, "C19", _program_body, "sliding_window_view (public) + SlidingWindowView._simplify_up + "
+                                  "MapOverlap/OverlapInternal or native kernels", select=lambda name: "sliding_window_view" in name)
+
+
 def instances(tier):
     q = tier == "quick"
-    out = []
+    out = _program_instances(tier)
     for m in ([2, 3, 4] if q else [2, 3, 4, 5]):
         out.append(inst_sliding((m,), 0, "sum"))
     out.append(inst_sliding((3,), 0, "mean"))
